@@ -1,48 +1,84 @@
 package c96
 
 import (
-	"bufio"
 	"fmt"
 	"io"
+	"net"
 	"net/http"
+	"net/url"
+	"sync"
+	"sync/atomic"
 	"testing"
-	"time"
 
-	v2 "mosn.io/mosn/pkg/config/v2"
-	_ "mosn.io/mosn/pkg/filter/stream/transcoder"
-	_ "mosn.io/mosn/pkg/filter/stream/transcoder/httpconv"
+	"golang.org/x/net/http2"
 	"verif/ev"
-	"verif/rig/codec"
 	"verif/rig/mesh"
 )
 
 func TestMain(m *testing.M) { mesh.Boot(); mesh.SpreadPorts(); ev.Main(m) }
 
+type rec struct {
+	net.Conn
+	mu  sync.Mutex
+	buf []byte
+	errs []string
+}
+
+func (r *rec) Read(p []byte) (int, error) {
+	n, err := r.Conn.Read(p)
+	r.mu.Lock()
+	r.buf = append(r.buf, p[:n]...)
+	if err != nil { r.errs = append(r.errs, "read:"+err.Error()) }
+	r.mu.Unlock()
+	return n, err
+}
+func (r *rec) Write(p []byte) (int, error) {
+	n, err := r.Conn.Write(p)
+	if err != nil { r.mu.Lock(); r.errs = append(r.errs, "write:"+err.Error()); r.mu.Unlock() }
+	return n, err
+}
+func (r *rec) Close() error { r.mu.Lock(); r.errs = append(r.errs, "close"); r.mu.Unlock(); return r.Conn.Close() }
+
 func TestExplore(t *testing.T) {
-	up := mesh.NewH2Server(http.HandlerFunc(func(w http.ResponseWriter, req *http.Request) {
-		body, err := io.ReadAll(req.Body)
-		fmt.Printf("   upstream: %s %s CL=%d body=%d err=%v hdr=%v\n", req.Method, req.RequestURI, req.ContentLength, len(body), err, req.Header)
-		w.WriteHeader(200)
-		w.Write([]byte("ok"))
-	}))
-	defer up.Close()
-	c, err := mesh.NewCase(mesh.Opts{Down: "Http1", Up: "Http2", Hosts: []string{up.Addr}, StreamFilters: []v2.Filter{{Type: "transcoder", Config: map[string]interface{}{"type": "httpTohttp2"}}}})
-	if err != nil {
-		t.Fatal(err)
-	}
-	defer c.Close()
-	for _, n := range []int{0, 1, 100, 16384, 65535, 65536, 131072} {
-		for _, chunked := range []bool{false, true} {
-			cl, _ := mesh.DialH1(c.Addr)
-			var ch []int
-			if chunked {
-				ch = []int{1000}
-			}
-			cl.Send(mesh.BuildH1Request("POST", "/x", [][2]string{{"Host", "h"}}, codec.Fill(n, 1, true), ch, true))
-			cl.C.SetReadDeadline(time.Now().Add(3 * time.Second))
-			resp, err := mesh.ReadH1Response(bufio.NewReader(cl.C), "POST")
-			fmt.Printf("n=%d chunked=%v -> %v %+v\n", n, chunked, err, resp)
-			cl.Close()
+	bad := 0
+	for i := 0; i < 3000; i++ {
+		var seen int32
+		var mu sync.Mutex
+		var recs []*rec
+		up := mesh.NewRawServer(func(id int, c net.Conn) {
+			r := &rec{Conn: c}
+			mu.Lock(); recs = append(recs, r); mu.Unlock()
+			srv := &http2.Server{}
+			srv.ServeConn(r, &http2.ServeConnOpts{Handler: http.HandlerFunc(func(w http.ResponseWriter, req *http.Request) {
+				atomic.AddInt32(&seen, 1)
+				io.ReadAll(req.Body)
+				w.WriteHeader(201)
+				w.Write([]byte("x"))
+			})})
+		})
+		c, err := mesh.NewCaseBound(mesh.Opts{Down: "Http2", Up: "Http2", Hosts: []string{up.Addr}})
+		if err != nil {
+			t.Fatal(err)
 		}
+		tr := mesh.NewH2Transport()
+		req := &http.Request{Method: "GET", URL: &url.URL{Scheme: "http", Host: c.Addr, Opaque: "/a:b"}, Host: "example.com", Header: http.Header{}}
+		resp, err := tr.RoundTrip(req)
+		if err != nil {
+			fmt.Printf("i=%d err %v\n", i, err)
+		} else {
+			b, _ := io.ReadAll(resp.Body)
+			if resp.StatusCode != 201 {
+				bad++
+				fmt.Printf("i=%d -> %d %v body=%d seen=%d\n", i, resp.StatusCode, resp.Header, len(b), atomic.LoadInt32(&seen))
+				mu.Lock()
+				for _, r := range recs { r.mu.Lock(); fmt.Printf("  upstream conn got %d bytes: %q errs=%v\n", len(r.buf), r.buf, r.errs); r.mu.Unlock() }
+				mu.Unlock()
+			}
+		}
+		tr.CloseIdleConnections()
+		c.Close()
+		up.Close()
+		if bad > 1 { break }
 	}
+	fmt.Println("bad", bad)
 }
